@@ -63,16 +63,17 @@ def decode_writes(log_slice):
             out.append(e)
             continue
         frames, rest = ashref.split_wire(e[1])
-        if rest or len(frames) != 1 or frames[0][1] is None:
+        if rest or not frames or any(f_[1] is None for f_ in frames):
             out.append(("tx_undecodable", e[1].hex()))
             continue
-        cancel, fr, _ = frames[0]
-        if fr.kind in ("ACK", "NAK"):
-            # (kind, ackNum) is what the properties speak about; the CANCEL prefix and the
-            # nRdy/reserved bits are reported but not part of any comparison
-            out.append(("tx", fr.kind, fr.ack, cancel, fr.nrdy, fr.res))
-        else:
-            out.append(("tx_other", fr.kind, cancel))
+        # one write may carry several frames (answers batched per read): each is an answer of its own
+        for cancel, fr, _ in frames:
+            if fr.kind in ("ACK", "NAK"):
+                # (kind, ackNum) is what the properties speak about; the CANCEL prefix and the
+                # nRdy/reserved bits are reported but not part of any comparison
+                out.append(("tx", fr.kind, fr.ack, cancel, fr.nrdy, fr.res))
+            else:
+                out.append(("tx_other", fr.kind, cancel))
     return out
 
 
